@@ -876,6 +876,10 @@ def big_amounts(s):
     s.do(E(HOSTILE, {"k": "receive", "sender": "usr3", "amount": 2 ** 128 - 1, "inner": {"k": "create_bucket_cw20", "id": 7}}), "hostile")
     s.do(E(HOSTILE, {"k": "receive", "sender": "usr3", "amount": 1, "inner": {"k": "add_to_bucket_cw20", "id": 7}}), "hostile")
     s.do(E(HOSTILE, {"k": "receive", "sender": "usr3", "amount": 2 ** 128, "inner": {"k": "add_to_bucket_cw20", "id": 7}}), "hostile")
+    # an amount of exactly 2^128 does not fit the message at all - also where the inner message would otherwise be fine
+    # (found unexercised by tools/modelmut.py)
+    s.do(E(HOSTILE, {"k": "receive", "sender": "usr3", "amount": 2 ** 128, "inner": {"k": "create_bucket_cw20", "id": 8}}), "hostile")
+    s.do(E(HOSTILE, {"k": "receive", "sender": "usr3", "amount": 2 ** 128 - 1, "inner": {"k": "create_bucket_cw20", "id": 8}}), "hostile")
 
 
 def queries_pages_cfg():
